@@ -10,7 +10,7 @@ import warnings
 import numpy as np
 
 from . import interp, probes
-from .common import digest
+from .common import digest, scribble
 
 chi = probes.chi
 import pints  # noqa: E402
@@ -259,6 +259,7 @@ def replay_case(arg):
     n = rec['nbottom'] + rec['ntop']
     # ---- counts, names, IDs (C02 names/IDs, C17) -----------------------------------------
     try:
+        cnt['scribbles'] = scribble(hll) + scribble(pop)
         obs = dict(
             n_parameters=int(hll.n_parameters()),
             n_top=int(hll.n_parameters(exclude_bottom_level=True)),
